@@ -409,6 +409,13 @@ impl Engine {
                     if a.node != LIT && a.node == b.node { return Sym::lit(0.0); }
                 }
                 b'*' => {
+                    // |x| * |x| = x * x (exact over the reals and in IEEE arithmetic alike)
+                    if a.node != LIT && a.node == b.node {
+                        if let Node::Abs(x) = self.nodes[a.node as usize] {
+                            let xs = Sym { node: x, lit: 0.0 };
+                            return self.bin(b'*', xs, xs);
+                        }
+                    }
                     if self.is_zero(a) || self.is_zero(b) { return Sym::lit(0.0); }
                     if self.is_one(a) { return b; }
                     if self.is_one(b) { return a; }
@@ -625,6 +632,20 @@ impl Engine {
             }
         }
         s.push_str(&side);
+        // axioms for the uninterpreted real power function, instantiated on the occurring applications
+        // (all of them true statements about x^y on the reals)
+        let pows: Vec<(u32, u32, u32)> = seen.iter().filter_map(|&i| if let Node::Fun2("pow", x, y) = &self.nodes[i as usize] { Some((i, *x, *y)) } else { None }).collect();
+        for &(i, x, y) in &pows {
+            s.push_str(&format!("(assert (=> (and (= {} 0.0) (> {} 0.0)) (= n{} 0.0)))\n", nm(x), nm(y), i));
+            s.push_str(&format!("(assert (=> (= {} 1.0) (= n{} 1.0)))\n", nm(x), i));
+            s.push_str(&format!("(assert (=> (> {} 0.0) (> n{} 0.0)))\n", nm(x), i));
+            s.push_str(&format!("(assert (=> (= {} 1.0) (= n{} {})))\n", nm(y), i, nm(x)));
+        }
+        for &(i1, x1, y1) in &pows { for &(i2, x2, y2) in &pows {
+            if i1 != i2 && y1 == y2 {
+                s.push_str(&format!("(assert (=> (and (<= 0.0 {}) (< {} {}) (> {} 0.0)) (< n{} n{})))\n", nm(x1), nm(x1), nm(x2), nm(y1), i1, i2));
+            }
+        } }
         if let Some(bound) = want_ints {
             for &v in &vars {
                 s.push_str(&format!("(declare-const iv{} Int)\n(assert (= v{} (to_real iv{})))\n(assert (and (<= (- {}) iv{}) (<= iv{} {})))\n", v, v, v, bound, v, v, bound));
